@@ -25,8 +25,8 @@ for d in sorted(glob.glob(os.path.join(SEED, "C??"))) + sorted(glob.glob(os.path
     tests_ok = ("existing tests rc=0" in chk)
     meta = {
         "property": ag.get("property", sid),
-        "change": ag.get("what_changed", ""),
-        "needs_to_manifest": ag.get("needs_to_manifest", ""),
+        "change": ag.get("what_changed", "") if isinstance(ag.get("what_changed", ""), str) else json.dumps(ag.get("what_changed")),
+        "needs_to_manifest": ag.get("needs_to_manifest", "") if isinstance(ag.get("needs_to_manifest", ""), str) else json.dumps(ag.get("needs_to_manifest")),
         "what_i_ran": [
             "tools/confirm_seed.sh (%s) : fresh scratch worktree of /repo HEAD; demo test without the change, existing tests with the change, demo test with the change; worktree removed" % sid,
             "tools/try_patch.sh seeded/%s/patch.diff : git -C /repo apply; cargo test; ./check Cxx quick for all 20 properties; git -C /repo checkout -- ." % sid,
